@@ -201,16 +201,21 @@ def run(ctx):
     # Sellmeier: formulae for scalar and array wavelengths
     glass, P = M["SellmeierGlass"]
     zem, PZ = M["SellmeierZemax"]
-    lam = np.array([0.7, 1.0, 2.0, 3.5])
-    for name, mod in (("SellmeierGlass", glass), ("SellmeierZemax", zem)):
-        arr = np.asarray(mod(lam), dtype=float)
-        sc = np.array([float(mod(float(x))) for x in lam])
-        ctx.case(key=("sellmeier", name), nontrivial=True, kind="sellmeier/array", sample={"model": name, "wavelengths": lam.tolist()})
+    for lam in (np.array([0.7, 1.0, 2.0, 3.5]), np.array([[1.0, 2.0, 5.0], [0.6, 1.5, 3.0]]), np.array([[0.9], [1.1], [2.2]]),
+                np.array([[[0.8, 1.3]], [[2.1, 4.0]]])):
+      for name, mod in (("SellmeierGlass", glass), ("SellmeierZemax", zem)):
+        try:
+            arr = np.asarray(mod(lam), dtype=float)
+        except Exception as e:  # noqa
+            prob(f"{name}: wavelengths of shape {lam.shape} raise {type(e).__name__}", {"model": name, "wavelengths": lam.tolist()})
+            continue
+        sc = np.array([float(mod(float(x))) for x in lam.ravel()]).reshape(lam.shape)
+        ctx.case(key=("sellmeier", name, lam.shape), nontrivial=True, kind="sellmeier/array", sample={"model": name, "wavelengths": lam.tolist()})
         if arr.shape != lam.shape or not np.allclose(arr, sc, rtol=1e-14, atol=0):
             prob(f"{name}: array wavelengths {lam.tolist()} give {arr.tolist()} but scalars give {sc.tolist()}",
-                 {"model": name, "wavelengths": lam.tolist()}, "C19/zemax-first-element" if (name == "SellmeierZemax" and np.allclose(arr, sc[0])) else None)
+                 {"model": name, "wavelengths": lam.tolist()}, "C19/zemax-first-element" if (name == "SellmeierZemax" and lam.ndim == 1 and np.allclose(arr, sc[0])) else None)
     B, C = P["B_coef"], P["C_coef"]
-    for x in lam:
+    for x in (0.7, 1.0, 2.0, 3.5):
         want = math.sqrt(1 + sum(b * x * x / (x * x - c) for b, c in zip(B, C)))
         if abs(float(glass(float(x))) - want) > 1e-14:
             prob("SellmeierGlass deviates from its formula", {"wavelength": float(x)})
